@@ -14,13 +14,14 @@ Definition two64 : N := 18446744073709551616.
 
 (* ---- 3.1 functions on 8-bit and 32-bit words *)
 (* octet i (0 = most significant) of a 32-bit word; w = w0 || w1 || w2 || w3 *)
-Definition octet (w:N) (i:N) : N := (w / 2 ^ (8 * (3 - i))) mod two8.
+Definition octet (w:N) (i:N) : N := N.land (N.shiftr w (8 * (3 - i))) 255.
 Definition cat4 (a b c d:N) : N := ((a * two8 + b) * two8 + c) * two8 + d.
 Definition add32 (a b:N) : N := (a + b) mod two32.                 (* integer addition modulo 2^32 *)
 
-(* 3.1.1 MULx: V, c 8-bit.  If the leftmost bit of V is 1: (V <<8 1) xor c, else V <<8 1 *)
-Definition MULx (V c:N) : N :=
-  if 128 <=? V then N.lxor ((V * 2) mod two8) c else (V * 2) mod two8.
+(* 3.1.1 MULx: V, c 8-bit.  If the leftmost bit of V is 1: (V <<8 1) xor c, else V <<8 1
+   (V <<8 1: shift left by one inside 8 bits = the 8 low bits of 2V) *)
+Definition shl8 (V:N) : N := N.land (V * 2) 255.
+Definition MULx (V c:N) : N := if 128 <=? V then N.lxor (shl8 V) c else shl8 V.
 (* 3.1.2 MULxPOW *)
 Fixpoint MULxPOW (V:N) (i:nat) (c:N) : N :=
   match i with O => V | S j => MULx (MULxPOW V j c) c end.
@@ -37,13 +38,25 @@ Fixpoint gf_pow (p a:N) (e:nat) : N := match e with O => 1 | S e' => gf_mul p a 
 (* 3.3.1 S_R is the Rijndael S-box: multiplicative inverse in GF(2)[x]/(x^8+x^4+x^3+x+1) (0 -> 0),
    followed by the affine map b_i' = b_i + b_(i+4) + b_(i+5) + b_(i+6) + b_(i+7) + c_i, c = 0x63 *)
 Definition rotl8 (x k:N) : N := (x * 2 ^ k) mod two8 + x / 2 ^ (8 - k).
-Definition S_R (x:N) : N :=
+Definition S_R_alg (x:N) : N :=
   let i := gf_pow 27 x 254 in                              (* x^254 = x^-1, and 0^254 = 0 *)
   N.lxor (N.lxor (N.lxor (N.lxor (N.lxor i (rotl8 i 1)) (rotl8 i 2)) (rotl8 i 3)) (rotl8 i 4)) 99.
 (* 3.3.2 S_Q: the Dickson polynomial g_49(x) = x + x^9 + x^13 + x^15 + x^33 + x^41 + x^45 + x^47 + x^49
    over GF(2)[x]/(x^8+x^6+x^5+x^3+1), S_Q(x) = g_49(x) + 0x25 *)
-Definition S_Q (x:N) : N :=
+Definition S_Q_alg (x:N) : N :=
   fold_left (fun r e => N.lxor r (gf_pow 105 x e)) [1;9;13;15;33;41;45;47;49]%nat 37.
+
+(* The two S-boxes are functions of one octet: they are tabulated once BY COQ from the algebraic definitions
+   (nothing below is typed in), and S_R / S_Q look the value up; [S_R_table_ok], [S_Q_table_ok] restate that. *)
+Definition range256 : list N := map N.of_nat (seq 0 256).
+Definition S_R_table : list N := Eval vm_compute in map S_R_alg range256.
+Definition S_Q_table : list N := Eval vm_compute in map S_Q_alg range256.
+Definition S_R (x:N) : N := nth (N.to_nat x) S_R_table 0.
+Definition S_Q (x:N) : N := nth (N.to_nat x) S_Q_table 0.
+Example S_R_table_ok : S_R_table = map S_R_alg range256.
+Proof. vm_compute. reflexivity. Qed.
+Example S_Q_table_ok : S_Q_table = map S_Q_alg range256.
+Proof. vm_compute. reflexivity. Qed.
 
 (* 3.3.1 S1 and 3.3.2 S2: w = w0||w1||w2||w3 -> r0||r1||r2||r3 (MixColumn of Rijndael / same matrix over the S_Q field) *)
 Definition x5 (a b c d e:N) : N := N.lxor (N.lxor (N.lxor (N.lxor a b) c) d) e.
@@ -127,13 +140,13 @@ Definition f8_bits (key:bytes) (count bearer dir:N) (nbits:N) (msg:bytes) : byte
   keep_bits nbits (eea1 key count bearer dir msg).
 
 (* 4.3.1 MULx / 4.3.2 MULxPOW / 4.3.3 MUL on 64-bit values *)
-Definition MULx64 (V c:N) : N :=
-  if 9223372036854775808 <=? V then N.lxor ((V * 2) mod two64) c else (V * 2) mod two64.
+Definition shl64 (V:N) : N := N.land (V * 2) 18446744073709551615.         (* V <<64 1 *)
+Definition MULx64 (V c:N) : N := if 9223372036854775808 <=? V then N.lxor (shl64 V) c else shl64 V.
 Fixpoint MULxPOW64 (V:N) (i:nat) (c:N) : N :=
   match i with O => V | S j => MULx64 (MULxPOW64 V j c) c end.
 (* result = 0; for i = 0 to 63: if (P >> i) & 1 then result = result xor MULxPOW(V, i, c) *)
 Definition MUL64 (V P c:N) : N :=
-  fold_left (fun r i => if N.odd (P / 2 ^ N.of_nat i) then N.lxor r (MULxPOW64 V i c) else r) (seq 0 64) 0.
+  fold_left (fun r i => if N.testbit P (N.of_nat i) then N.lxor r (MULxPOW64 V i c) else r) (seq 0 64) 0.
 
 (* 4.4 f9: IV3 = COUNT, IV2 = FRESH, IV1 = COUNT xor (DIRECTION << 31), IV0 = FRESH xor (DIRECTION << 15);
    z1..z5; P = z1||z2, Q = z3||z4; D = ceil(LENGTH/64) + 1; M_0..M_(D-2) the message padded with 0 bits,
